@@ -98,8 +98,13 @@ class StartTaskHandler(StabilizeHandler[StartTask]):
                 if isinstance(task_impl, SkippableTask) and not task_impl.is_enabled(stage):
                     logger.info("Skipping task %s (disabled)", task_model.name)
 
-                    # Mark as skipped - use atomic transaction
-                    self.set_task_status(task_model, WorkflowStatus.SKIPPED)
+                    # CompleteTask(SKIPPED) marks it skipped and moves on to the
+                    # next task / the stage's completion. It only acts on a
+                    # RUNNING task (anything else is a stale duplicate to it),
+                    # so the task is handed over RUNNING like a started one;
+                    # writing SKIPPED here left the stage RUNNING for ever.
+                    self.set_task_status(task_model, WorkflowStatus.RUNNING)
+                    task_model.start_time = self.current_time_millis()
                     with self.repository.transaction(self.queue) as txn:
                         txn.store_stage(stage)
                         if message.message_id:
